@@ -18,6 +18,45 @@ import (
 	"github.com/csgura/fp/lazy"
 )
 
+// OwnGC takes garbage collection away from the Go runtime's pacer: no cycle starts on its own (unless the memory
+// limit is reached, which only the few allocation-heavy runs can do), so finalizers - the pull iterators of the
+// library have one - run only where the simulator says so: between runs (GCBetweenRuns) and at injected fault points
+// (GCNow). A defect that depends on when a finalizer runs then replays like any other.
+func OwnGC(memLimit int64) {
+	debug.SetGCPercent(-1)
+	if memLimit > 0 {
+		debug.SetMemoryLimit(memLimit)
+	}
+}
+
+type gcSentinel struct{ _ [16]byte }
+
+// GCNow runs a full collection and returns once every finalizer queued by it has run (a sentinel allocated after the
+// first cycle is collected by a second one; the runtime runs finalizers sequentially in queue order).
+func GCNow() {
+	runtime.GC()
+	done := make(chan struct{})
+	s := new(gcSentinel)
+	runtime.SetFinalizer(s, func(*gcSentinel) { close(done) })
+	s = nil
+	runtime.GC()
+	select {
+	case <-done:
+	case <-time.After(2 * time.Second):
+	}
+}
+
+var runsSinceGC int
+
+// GCBetweenRuns is called by the drivers after every run; it collects every few hundred runs.
+func GCBetweenRuns() {
+	runsSinceGC++
+	if runsSinceGC >= 400 {
+		runsSinceGC = 0
+		GCNow()
+	}
+}
+
 // HarnessError is a panic value raised for trouble in the simulator itself (watchdog,
 // misuse). The driver turns it into exit status 2, never into a VIOLATION.
 type HarnessError struct{ Msg string }
@@ -156,14 +195,11 @@ func rangeHook(keys []any) []any {
 	if r == nil {
 		return nil
 	}
-	if !r.OwnRange {
-		return nil // only scenarios that ask for it (C19) pay a scheduling point per map entry
-	}
+	// every run gets a deterministic order (the canonical one): with Go's own randomised order the effect of a defect
+	// could depend on it and a failing run would not replay. Only scenarios that ask for it (OwnRange, C19) also get a
+	// seeded starting point and - see hook - a scheduling point per entry.
 	t := r.currentTask()
-	if t == nil {
-		return nil
-	}
-	if len(keys) < 2 || r.multi.Load() || t != r.cur {
+	if !r.OwnRange || t == nil || len(keys) < 2 || r.multi.Load() || t != r.cur {
 		return keys
 	}
 	k := r.Choose(len(keys), "rangeStart")
@@ -174,6 +210,9 @@ func hook(op string) {
 	r := active.Load()
 	if r == nil {
 		return
+	}
+	if op == "gomap.range" && !r.OwnRange {
+		return // the per-entry yield of UnsafeGoMap.Iterator is a scheduling point only for runs that own the range
 	}
 	t := r.currentTask()
 	if t == nil {
